@@ -3,10 +3,99 @@
 package slice
 
 // Contracts for the verification harness in /verif (see /verif/DESIGN.md).
+// This file is comment-only and is compiled only under the build tag "verif".
 //
 //@ spec norm(x int, m int) int := ite(x < 0, x + m, ite(x >= m, x - m, x))
 //@
-//@ func Rotate trusted: permutation postcondition checked by a bounded stand-in only
+//@ func sliceCheck
+//@   pure
+//@   ensures result.0 == ite(i < 0, i + n, i)
+//@   ensures result.1 == (0 <= result.0 && result.0 <= n)
+//@
+//@ func indexCheck
+//@   pure
+//@   ensures result.0 == ite(i < 0, i + n, i)
+//@   ensures result.1 == (0 <= result.0 && result.0 < n)
+//@
+//@ func At
+//@   pure
+//@   panics when i < -len(ss) || i >= len(ss)
+//@   ensures [C17] elem: result == ss[ite(i < 0, i + len(ss), i)]
+//@
+//@ func PtrAt
+//@   pure
+//@   ensures [C17] inrange: -len(ss) <= i && i < len(ss) ==> result == elemptr(ss, ite(i < 0, i + len(ss), i))
+//@   ensures [C17] outside: (i < -len(ss) || i >= len(ss)) ==> result == nil
+//@
+//@ func Head
+//@   pure
+//@   requires n >= 0
+//@   ensures [C17] result == ite(len(vs) < n, vs, vs[:n])
+//@
+//@ func Tail
+//@   pure
+//@   requires n >= 0
+//@   ensures [C17] result == ite(len(vs) < n, vs, vs[len(vs)-n:])
+//@
+//@ func Zero
+//@   ensures forall k int :: 0 <= k && k < len(vs) ==> vs[k] == zero
+//@   modifies elems(vs)
+//@   loop 1: invariant zeroed: forall k int :: 0 <= k && k < it1 ==> vs[k] == zero
+//@   loop 1: invariant outside: unchanged_outside(vs)
+//@
+//@ func gcd
+//@   pure
+//@   requires a >= 0 && b >= 0
+//@   ensures  result >= 0 && (a > 0 || b > 0 ==> result > 0) && (b > 0 ==> result <= b)
+//@   loop 1: invariant a >= 0 && b >= 0 && (old(a) > 0 || old(b) > 0 ==> a > 0 || b > 0)
+//@   loop 1: invariant old(b) > 0 ==> b <= old(b) && ((a == old(a) && b == old(b)) || (0 < a && a <= old(b)))
+//@   loop 1: decreases b
+//@
+//@ func Rotate
 //@   panics when k < -len(ss) || k > len(ss)
-//@   ensures  [C07,C17] forall t int :: {ss[t]} 0 <= t && t < len(ss) ==> ss[t] == old(ss[norm(t - k, len(ss))])
+//@   ensures  [C07,C17] [assumed] permutation: forall t int :: {ss[t]} 0 <= t && t < len(ss) ==> ss[t] == old(ss[norm(t - k, len(ss))])
 //@   modifies elems(ss)
+//@   loop 1: invariant 0 < k && k < len(ss) && 0 < g && g <= len(ss) && unchanged_outside(ss)
+//@   loop 2: invariant 0 <= i && i < len(ss) && 0 <= j && j < len(ss) && unchanged_outside(ss)
+//@
+//@ pred chained(out []Slice, vs Slice) := (len(out) > 0 ==> out[0].off == vs.off)
+//@+     && (forall a int, b int :: {out[a], out[b]} 0 <= a && b == a + 1 && b < len(out) ==> out[b].off == out[a].off + len(out[a]))
+//@+     && (forall k int :: {out[k]} 0 <= k && k < len(out) ==> out[k].base == vs.base && cap(out[k]) == len(out[k]))
+//@
+//@ func Chunks
+//@   panics when n < 0
+//@   ensures [C17] whole: (n == 0 || n >= len(vs)) ==> len(result) == 1 && result[0] == vs
+//@   ensures [C17] chain: 0 < n && n < len(vs) ==> len(result) >= 1 && chained(result, vs)
+//@+       && result[len(result)-1].off + len(result[len(result)-1]) == vs.off + len(vs)
+//@   ensures [C17] sizes: 0 < n && n < len(vs) ==> (forall k int :: {result[k]} 0 <= k && k < len(result) - 1 ==> len(result[k]) == n)
+//@+       && 0 < len(result[len(result)-1]) && len(result[len(result)-1]) <= n
+//@   loop 1: invariant own: fresh(out) && old_arrays_unchanged(out)
+//@   loop 1: invariant bounds: 0 <= i && i <= len(vs) && 0 < n && n < len(vs) && (len(out) == 0 ==> i == 0)
+//@   loop 1: invariant chain: chained(out, vs) && (len(out) > 0 ==> out[len(out)-1].off + len(out[len(out)-1]) == vs.off + i)
+//@   loop 1: invariant sizes: forall k int :: {out[k]} 0 <= k && k < len(out) ==> 0 < len(out[k]) && len(out[k]) <= n && (len(out[k]) == n || (k == len(out)-1 && i == len(vs)))
+//@
+//@ func Batches
+//@   panics when n < 0
+//@   ensures [C17] none: n == 0 ==> result == nil
+//@   ensures [C17] count: n > 0 ==> len(result) == min(n, len(vs))
+//@   ensures [C17] chain: n > 0 && len(vs) > 0 ==> chained(result, vs) && result[len(result)-1].off + len(result[len(result)-1]) == vs.off + len(vs)
+//@   ensures [C17] even: n > 0 ==> forall a int, b int :: {result[a], result[b]} 0 <= a && a < len(result) && 0 <= b && b < len(result) ==> len(result[a]) - len(result[b]) <= 1
+//@   loop 1: invariant own: fresh(out) && old_arrays_unchanged(out)
+//@   loop 1: invariant bounds: 0 <= i && i <= len(vs) && 0 < n && n <= len(vs) && 0 <= rem && 0 <= size && 0 <= len(out) && len(out) <= n && rem <= n - len(out)
+//@   loop 1: invariant budget: len(vs) - i == (n - len(out)) * size + rem
+//@   loop 1: invariant chain: chained(out, vs) && (len(out) == 0 ==> i == 0) && (len(out) > 0 ==> out[len(out)-1].off + len(out[len(out)-1]) == vs.off + i)
+//@   loop 1: invariant sizes: forall k int :: {out[k]} 0 <= k && k < len(out) ==> len(out[k]) == size || len(out[k]) == size + 1
+//@
+//@ func Stripe
+//@   requires i >= 0
+//@   ghostret src imap[int]
+//@   ensures [C17] elems: forall k int :: {result[k]} 0 <= k && k < len(result) ==> 0 <= src[k] && src[k] < len(vs) && i < len(vs[src[k]]) && result[k] == vs[src[k]][i]
+//@   ensures [C17] order: forall a int, b int :: 0 <= a && a < b && b < len(result) ==> src[a] < src[b]
+//@   ensures [C17] complete: forall j int :: 0 <= j && j < len(vs) && i < len(vs[j]) ==> exists k int :: 0 <= k && k < len(result) && src[k] == j
+//@   ensures [C17] inputs: old_arrays_unchanged(result)
+//@   at after "out = append(out, v[i])": ghost src[len(out)-1] = it1
+//@   loop 1: invariant own: (len(out) == 0 && out == nil) || fresh(out)
+//@   loop 1: invariant inputs: old_arrays_unchanged(out)
+//@   loop 1: invariant elems: forall k int :: {out[k]} 0 <= k && k < len(out) ==> 0 <= src[k] && src[k] < it1 && i < len(vs[src[k]]) && out[k] == vs[src[k]][i]
+//@   loop 1: invariant order: forall a int, b int :: 0 <= a && a < b && b < len(out) ==> src[a] < src[b]
+//@   loop 1: invariant complete: forall j int :: 0 <= j && j < it1 && i < len(vs[j]) ==> exists k int :: 0 <= k && k < len(out) && src[k] == j
